@@ -85,7 +85,7 @@ func (c *coreScn) snap() {
 	c.s.Rec.Emit("snap", kv...)
 }
 
-func (c *coreScn) thread() string { c.thr++; return fmt.Sprintf("T%d", c.thr) }
+func (c *coreScn) thread() string { return c.s.Thread() }
 
 func (c *coreScn) step(st string) {
 	s := c.s
